@@ -597,8 +597,45 @@ func c02Errors(p *core.Program, r *core.Report) {
 	info := p.Pkg("optimizer").TypesInfo
 	errT := p.Pkg("file").Types.Scope().Lookup("Error")
 	n := 0
+	rawSite := func(nd ast.Node) (bool, string) {
+		switch x := nd.(type) {
+		case *ast.CompositeLit:
+			if t := info.TypeOf(x); t != nil && errT != nil && types.Identical(t, errT.Type()) {
+				return true, "file.Error literal"
+			}
+		case *ast.CallExpr:
+			if fn := eng.CalleeOf(info, x); fn != nil && fn.Pkg() != nil && (fn.Pkg().Path() == "fmt" && fn.Name() == "Errorf" || fn.Pkg().Path() == "errors" && fn.Name() == "New") {
+				return true, fn.Pkg().Path() + "." + fn.Name()
+			}
+		}
+		return false, ""
+	}
+	// error constructors: plain functions of the package that only build and return an error;
+	// the circumstances of the error are those of their call sites
+	ctors := map[*types.Func]bool{}
+	for _, fd := range p.FuncDecls("optimizer") {
+		if fd.Body == nil || fd.Recv != nil || len(fd.Body.List) != 1 {
+			continue
+		}
+		rs, ok := fd.Body.List[0].(*ast.ReturnStmt)
+		if !ok || len(rs.Results) != 1 {
+			continue
+		}
+		e := eng.Unparen(rs.Results[0])
+		if u, ok := e.(*ast.UnaryExpr); ok && u.Op == token.AND {
+			e = eng.Unparen(u.X)
+		}
+		if is, _ := rawSite(e); is {
+			if fn, ok := info.Defs[fd.Name].(*types.Func); ok {
+				ctors[fn] = true
+			}
+		}
+	}
 	for _, fd := range p.FuncDecls("optimizer") {
 		if fd.Body == nil {
+			continue
+		}
+		if fn, ok := info.Defs[fd.Name].(*types.Func); ok && ctors[fn] {
 			continue
 		}
 		fname := core.FuncName("optimizer", fd)
@@ -609,15 +646,10 @@ func c02Errors(p *core.Program, r *core.Report) {
 				return true
 			}
 			stack = append(stack, nd)
-			isErrSite, what := false, ""
-			switch x := nd.(type) {
-			case *ast.CompositeLit:
-				if t := info.TypeOf(x); t != nil && errT != nil && types.Identical(t, errT.Type()) {
-					isErrSite, what = true, "file.Error literal"
-				}
-			case *ast.CallExpr:
-				if fn := eng.CalleeOf(info, x); fn != nil && fn.Pkg() != nil && (fn.Pkg().Path() == "fmt" && fn.Name() == "Errorf" || fn.Pkg().Path() == "errors" && fn.Name() == "New") {
-					isErrSite, what = true, fn.Pkg().Path()+"."+fn.Name()
+			isErrSite, what := rawSite(nd)
+			if c, ok := nd.(*ast.CallExpr); ok && !isErrSite {
+				if fn := eng.CalleeOf(info, c); fn != nil && ctors[fn] {
+					isErrSite, what = true, "call of the error constructor "+fn.Name()
 				}
 			}
 			if isErrSite {
@@ -887,7 +919,10 @@ func c02Controls() []core.Mutant {
 		{Name: "optimizer runs before the operator patch", File: "expr.go", Old: "\t// Patch operators before Optimize, as we may also mark it as ConstExpr.\n\tcompiler.PatchOperators(&tree.Node, config)\n", New: "\tif config.Optimize {\n\t\t_ = optimizer.Optimize(&tree.Node, config)\n\t}\n\tcompiler.PatchOperators(&tree.Node, config)\n", Rule: "R2.5", Construct: "optimizer after checks"},
 		{Name: "compile-time range is one element short", File: "optimizer/const_range.go", Old: "size := max.Value - min.Value + 1", New: "size := max.Value - min.Value", Rule: "R2.7", Construct: "size is max - min + 1"},
 		{Name: "compile-time range starts one too high", File: "optimizer/const_range.go", Old: "value[i] = min.Value + i", New: "value[i] = min.Value + i + 1", Rule: "R2.7", Construct: "element i is min + i"},
-		{Name: "run-time range treats a singleton as empty", File: "vm/runtime.go", Old: "\tsize := max - min + 1\n\tif size <= 0 {\n\t\treturn []int{}", New: "\tsize := max - min + 1\n\tif size <= 1 {\n\t\treturn []int{}", Rule: "R2.7", Construct: "empty exactly when"},
+		{Name: "run-time range treats a singleton as empty", File: "vm/runtime.go", Old: "\tsize := max - min + 1\n\tif size <= 0 {\n\t\treturn []int{}", New: "\tsize := max - min + 1\n\tif size <= 1 {\n\t\treturn []int{}", Rule: "R2.7", Construct: "vm.makeRange/size is max - min + 1"},
+		{Name: "run-time range without the empty case", File: "vm/runtime.go", Old: "\tif size <= 0 {\n\t\treturn []int{}\n\t}\n", New: "", Rule: "R2.7", Construct: "empty exactly when"},
+		{Name: "refactor: run-time range clamps and carries the element in a variable", File: "vm/runtime.go", Old: "\tif size <= 0 {\n\t\treturn []int{}\n\t}\n\trng := make([]int, size)\n\tfor i := range rng {\n\t\trng[i] = min + i\n\t}", New: "\tif size < 1 {\n\t\tsize = 0\n\t}\n\trng := make([]int, size)\n\tfor i, v := 0, min; i < size; i, v = i+1, v+1 {\n\t\trng[i] = v\n\t}", Silent: true},
+		{Name: "refactor: run-time range appends", File: "vm/runtime.go", Old: "\tif size <= 0 {\n\t\treturn []int{}\n\t}\n\trng := make([]int, size)\n\tfor i := range rng {\n\t\trng[i] = min + i\n\t}", New: "\trng := []int{}\n\tfor v := min; v <= max; v++ {\n\t\trng = append(rng, v)\n\t}\n\t_ = size", Silent: true},
 		{Name: "bounds swapped in the range membership rewrite", File: "optimizer/in_range.go", Old: "\t\t\t\t\t\t\tOperator: \">=\",\n\t\t\t\t\t\t\tLeft:     n.Left,\n\t\t\t\t\t\t\tRight:    from,", New: "\t\t\t\t\t\t\tOperator: \">=\",\n\t\t\t\t\t\t\tLeft:     n.Left,\n\t\t\t\t\t\t\tRight:    to,", Edits: [][2]string{{"\t\t\t\t\t\t\tOperator: \"<=\",\n\t\t\t\t\t\t\tLeft:     n.Left,\n\t\t\t\t\t\t\tRight:    to,", "\t\t\t\t\t\t\tOperator: \"<=\",\n\t\t\t\t\t\t\tLeft:     n.Left,\n\t\t\t\t\t\t\tRight:    from,"}}, Rule: "R2.10", Construct: "lower bound"},
 		{Name: "empty descending range folded to a constant, operand dropped", File: "optimizer/in_range.go", Old: "\t\t\t\t\tif to, ok := rng.Right.(*IntegerNode); ok {\n", New: "\t\t\t\t\tif to, ok := rng.Right.(*IntegerNode); ok {\n\t\t\t\t\t\tif from.Value > to.Value {\n\t\t\t\t\t\t\tPatch(node, &BoolNode{Value: n.Operator == \"not in\"})\n\t\t\t\t\t\t\treturn\n\t\t\t\t\t\t}\n", Rule: "R2.3", Construct: "no dynamic child dropped"},
 		{Name: "REFACTORING: the plain-int predicate as a package-level helper", File: "optimizer/fold.go", Silent: true,
